@@ -787,6 +787,11 @@ func (p *proxyRun) one(r *vh.Run, c c15Case) {
 		return
 	}
 	rb, err := do(lr.rig)
+	if se, ok := err.(*msgx.StuckError); ok {
+		witness["quiescent_state"] = se.Fingerprint
+		viol("C15:forwarded-identical:"+c.Cfg.Logger, "[proxy] the exchange completes through the plain proxy but never completes through the logging proxy: "+se.Error())
+		return
+	}
 	if err != nil {
 		inconc("exchange through the logging proxy: " + err.Error())
 		return
